@@ -53,7 +53,7 @@ def plan(tier, seed):
 def minimums(tier):
     return {"runs.readonly": 4000, "runs.delete": 500, "runs.delete_all": 300, "runs.json": 300, "snapshots.compared": 5000,
             "audit.events": 500, "delete.removed_one": 200, "delete.not_found": 100, "delete.invalid_id": 50,
-            "nested.preserved": 300}
+            "nested.preserved": 300, "runs.file_clean": 200, "runs.readonly_with_dominated_options": 1000}
 
 
 def build_tree(rng, u, reg, root, i):
@@ -149,6 +149,19 @@ def run(spec, ctx):
                 for fn in os.listdir(base):
                     if fn.endswith(".json") and os.path.isfile(os.path.join(base, fn)) and fn not in [t.name for t in top]:
                         os.unlink(os.path.join(base, fn))
+        # --file --clean removes the entry it was given - the link, when that entry is a symbolic link - and nothing else
+        if e0:
+            inbox = os.path.join(d.root, "inbox")
+            os.makedirs(inbox, exist_ok=True)
+            with open(os.path.join(inbox, "real_%08X.pel" % eid), "wb") as f:
+                f.write(e0.data)
+            os.symlink(rng.choice(["real_%08X.pel" % eid, os.path.join(inbox, "real_%08X.pel" % eid), e0.path]),
+                       os.path.join(inbox, "latest.pel"))
+            for target in ("inbox/latest.pel", "inbox/real_%08X.pel" % eid):
+                observe(ctx, d, ["-f", os.path.join(d.root, target), "-E", rng.choice(["-c", "--clean"])], "file_clean", target, i,
+                        extra_roots=[outdir])
+            import shutil as _sh
+            _sh.rmtree(inbox, ignore_errors=True)
         # --delete
         cands = []
         if e0:
@@ -241,6 +254,11 @@ def observe(ctx, d, argv, kind, arg, i, ents=None, extra_roots=()):
         bad = [e for e in events if not (e[0] in ("os.remove", "os.unlink") and os.path.dirname(e[1]) == d.root)]
         if bad:
             ctx.violation("C11/delete-unexpected-mutation-call", "-d %s performed %s" % (arg, bad[:5]))
+        return
+    if kind == "file_clean":
+        if created or changed or other_changes or removed != [arg]:
+            ctx.violation("C11/file-clean-touched-other-entries", "-f %s --clean removed %s, created %s, modified %s (elsewhere: %s); "
+                          "only the named entry may go" % (arg, removed[:5], created[:5], changed[:5], other_changes[:3]))
         return
     if kind == "delete_all":
         if created or changed or other_changes:
